@@ -5,7 +5,7 @@
 //! fn: pallas_codec::flat::zigzag::ZigZag for isize/usize
 //! stub: std::fmt::format -> empty String
 //! assume: every value harness ends with (value, trailing u8, encoder filler); the decoder side reads the trailing u8 and then the rest of the last byte with bits8 and requires the filler pattern 0..01 and pos == len; Decoder::filler itself (a loop of <= 8 bit reads) is checked on the encoder's filler at every alignment by the c01_q_filler_* family and by the flat::encode/decode harnesses
-//! outside: sequences longer than (K bools, value, value, u8) as one solver query (the encoder only appends and the decoder only reads at its cursor, so one-step results per alignment compose -- that argument is not machine-checked); byte strings above 511 bytes; big_integer (num-bigint feature off)
+//! outside: sequences longer than (K bools, value, value, u8, filler) as one solver query (the encoder only appends and the decoder only reads at its cursor, so one-step results per alignment compose -- that argument is not machine-checked); byte strings above 256 bytes (3 and more blocks: 511 bytes gave no verdict in 600 s); big_integer (num-bigint feature off)
 //! outside: Decoder::utf8 / decode::<String> = String::from_utf8(Decoder::bytes()): std's UTF-8 validator on symbolic bytes gives no verdict (C02 measured 15 min for 2 bytes); Encoder::utf8 is checked against Decoder::bytes
 use pallas_codec::flat::de::Decoder;
 use pallas_codec::flat::en::Encoder;
@@ -324,7 +324,7 @@ fam!(c01_t_word_a5, word_rt, 5, 11);
 fam!(c01_t_word_a6, word_rt, 6, 11);
 fam!(c01_t_word_a7, word_rt, 7, 11);
 // bound: integer over the full isize range (zigzag, <= 10 groups, unwind 11), K leading symbolic bools, trailing symbolic u8
-fam!(c01_q_int_a5, int_rt, 5, 11);
+fam!(c01_t_int_a5, int_rt, 5, 11);
 fam!(c01_t_int_a0, int_rt, 0, 11);
 fam!(c01_t_int_a1, int_rt, 1, 11);
 fam!(c01_t_int_a2, int_rt, 2, 11);
@@ -337,10 +337,10 @@ fam!(c01_q_small_a0, small_rt, 0, 4);
 fam!(c01_t_small_a1, small_rt, 1, 4);
 fam!(c01_t_small_a2, small_rt, 2, 4);
 fam!(c01_q_small_a3, small_rt, 3, 4);
-fam!(c01_q_small_a4, small_rt, 4, 4);
+fam!(c01_t_small_a4, small_rt, 4, 4);
 fam!(c01_t_small_a5, small_rt, 5, 4);
 fam!(c01_t_small_a6, small_rt, 6, 4);
-fam!(c01_q_small_a7, small_rt, 7, 4);
+fam!(c01_t_small_a7, small_rt, 7, 4);
 // bound: the encoder's filler after K symbolic bools, every K in 0..=7 (Decoder::filler <= 8 bit reads, unwind 9)
 fam!(c01_q_filler_a0, filler_rt, 0, 9);
 fam!(c01_q_filler_a1, filler_rt, 1, 9);
@@ -351,9 +351,9 @@ fam!(c01_q_filler_a5, filler_rt, 5, 9);
 fam!(c01_q_filler_a6, filler_rt, 6, 9);
 fam!(c01_q_filler_a7, filler_rt, 7, 9);
 // bound: bits(n, v) / bits8(n), n symbolic in 1..=8, v < 2^n symbolic, after K symbolic bools
-fam!(c01_q_bits_a0, bits_rt, 0, 2);
+fam!(c01_t_bits_a0, bits_rt, 0, 2);
 fam!(c01_q_bits_a3, bits_rt, 3, 2);
-fam!(c01_q_bits_a6, bits_rt, 6, 2);
+fam!(c01_t_bits_a6, bits_rt, 6, 2);
 fam!(c01_t_bits_a1, bits_rt, 1, 2);
 fam!(c01_t_bits_a2, bits_rt, 2, 2);
 fam!(c01_t_bits_a4, bits_rt, 4, 2);
@@ -370,7 +370,7 @@ fam!(c01_t_bytes2_a2, bytes_rt, 2, 2, 7);
 fam!(c01_t_bytes1_a6, bytes_rt, 6, 1, 4);
 fam!(c01_t_bytes3_a3, bytes_rt, 3, 3, 6);
 // bound: Encoder::utf8 on L in 0..=3 symbolic ASCII chars read back with Decoder::bytes
-fam!(c01_q_utf8_2_a6, utf8_rt, 6, 2, 5);
+fam!(c01_t_utf8_2_a6, utf8_rt, 6, 2, 5);
 fam!(c01_t_utf8_0_a0, utf8_rt, 0, 0, 9);
 fam!(c01_t_utf8_3_a3, utf8_rt, 3, 3, 6);
 // bound: Encoder::string / Decoder::string on the empty string after K symbolic bools (non-empty strings: outside, see file header)
@@ -381,10 +381,9 @@ fam!(c01_t_list0_a0, list_rt, 0, 0, 4);
 fam!(c01_t_list1_a2, list_rt, 2, 1, 4);
 fam!(c01_t_list2_a7, list_rt, 7, 2, 4);
 fam!(c01_t_list1_a4, list_rt, 4, 1, 4);
-// bound: byte strings of concrete length at the 255-byte block boundary (2 and 3 blocks), symbolic content
+// bound: byte strings of concrete length at the 255-byte block boundary (255 = one full block, 256 = two blocks), symbolic content
 fam!(c01_t_bytes255_a0, bytes_rt, 0, 255, 9);
 fam!(c01_t_bytes256_a3, bytes_rt, 3, 256, 6);
-fam!(c01_t_bytes511_a0, bytes_rt, 0, 511, 9);
 
 /// flat::encode(&v) -> flat::decode::<T>() (value + filler, the public top-level entry points)
 macro_rules! top {
@@ -409,7 +408,7 @@ macro_rules! top {
 // bound: flat::encode / flat::decode::<T> on every value of T (value at alignment 0 + filler; unwind 9 = filler loop, 11 for 64-bit words)
 top!(c01_q_top_bool, bool, 9);
 top!(c01_q_top_u8, u8, 9);
-top!(c01_q_top_char, char, 9);
+top!(c01_t_top_char, char, 9);
 top!(c01_t_top_usize, usize, 11);
 top!(c01_t_top_isize, isize, 11);
 
@@ -518,24 +517,209 @@ macro_rules! pair {
         }
     };
 }
-// bound: ordered pairs over {bool, u8, word (full range), bytes (2 symbolic bytes)} after K in {3, 6} symbolic bools, then the trailing u8
+// bound: ordered pairs over {bool, u8, word (full range), bytes (2 symbolic bytes)} after K in {3, 6} symbolic bools, then the trailing u8 (of the pairs with a word only bool-word, word-bool, word-u8: u8-word, word-word, word-bytes, bytes-word took 600 s or gave no verdict and are left to the composition argument)
 pair!(c01_t_pair_bool_bool_a3, 3, OBool, OBool, 4);
 pair!(c01_t_pair_bool_u8_a6, 6, OBool, OU8, 4);
 pair!(c01_t_pair_bool_word_a3, 3, OBool, OWord, 11);
 pair!(c01_t_pair_bool_bytes_a6, 6, OBool, OBytes, 4);
 pair!(c01_t_pair_u8_bool_a3, 3, OU8, OBool, 4);
 pair!(c01_t_pair_u8_u8_a6, 6, OU8, OU8, 4);
-pair!(c01_t_pair_u8_word_a6, 6, OU8, OWord, 11);
 pair!(c01_t_pair_u8_bytes_a3, 3, OU8, OBytes, 6);
 pair!(c01_t_pair_word_bool_a6, 6, OWord, OBool, 11);
 pair!(c01_t_pair_word_u8_a3, 3, OWord, OU8, 11);
-pair!(c01_t_pair_word_word_a3, 3, OWord, OWord, 11);
-pair!(c01_t_pair_word_bytes_a6, 6, OWord, OBytes, 11);
 pair!(c01_t_pair_bytes_bool_a3, 3, OBytes, OBool, 6);
 pair!(c01_t_pair_bytes_u8_a6, 6, OBytes, OU8, 4);
-pair!(c01_t_pair_bytes_word_a3, 3, OBytes, OWord, 11);
 pair!(c01_t_pair_bytes_bytes_a6, 6, OBytes, OBytes, 9);
 
+
+// ---- sequences: two consecutive values, the first one ending exactly on a byte boundary for some K, then the
+// ---- filler directly (or a trailing u8 first); decoded with the same calls incl. Decoder::filler
+struct OWord14(usize);
+struct OBytes0;
+struct OBytes1(u8);
+struct OBits12(usize, u8);
+struct OList1(u8);
+impl Op for OWord14 {
+    /// words below 2^14 (1 or 2 groups)
+    fn any() -> Self {
+        let v: usize = kani::any();
+        kani::assume(v < (1 << 14));
+        OWord14(v)
+    }
+    fn put(&self, e: &mut Encoder) {
+        e.word(self.0);
+    }
+    fn check(&self, d: &mut Decoder) {
+        assert!(d.word().unwrap() == self.0, "word round-trips as second value of a sequence");
+    }
+}
+impl Op for OBytes0 {
+    fn any() -> Self {
+        OBytes0
+    }
+    fn put(&self, e: &mut Encoder) {
+        e.bytes(&[]).unwrap();
+    }
+    fn check(&self, d: &mut Decoder) {
+        let got = d.bytes().unwrap();
+        assert!(got.len() == 0, "empty bytes round-trip as second value of a sequence");
+        core::mem::forget(got);
+    }
+}
+impl Op for OBytes1 {
+    fn any() -> Self {
+        OBytes1(kani::any())
+    }
+    fn put(&self, e: &mut Encoder) {
+        e.bytes(&[self.0]).unwrap();
+    }
+    fn check(&self, d: &mut Decoder) {
+        let got = d.bytes().unwrap();
+        assert!(got.len() == 1 && got[0] == self.0, "1-byte string round-trips as second value of a sequence");
+        core::mem::forget(got);
+    }
+}
+impl Op for OBits12 {
+    /// bits(n, v) with n symbolic in 1..=2 and v < 2^n
+    fn any() -> Self {
+        let n: usize = kani::any();
+        kani::assume(n == 1 || n == 2);
+        let v: u8 = kani::any();
+        kani::assume((v as usize) < (1usize << n));
+        OBits12(n, v)
+    }
+    fn put(&self, e: &mut Encoder) {
+        e.bits(self.0 as i64, self.1);
+    }
+    fn check(&self, d: &mut Decoder) {
+        assert!(d.bits8(self.0).unwrap() == self.1, "bits(n<=2) round-trip as first value of a sequence");
+    }
+}
+impl Op for OList1 {
+    fn any() -> Self {
+        OList1(kani::any())
+    }
+    fn put(&self, e: &mut Encoder) {
+        e.encode_list_with(&[self.0], enc_u8).unwrap();
+    }
+    fn check(&self, d: &mut Decoder) {
+        let got = d.decode_list_with(|d| d.u8()).unwrap();
+        assert!(got.len() == 1 && got[0] == self.0, "1-element list round-trips as first value of a sequence");
+        core::mem::forget(got);
+    }
+}
+
+/// K prefix bools, a, b, [trailing u8 if T], filler; decoded with the same calls; the filler is
+/// checked as in check_end (bits8 over the rest of the last byte must give 0..01) and pos == len
+fn seq2<const K: usize, const T: bool, A: Op, B: Op>() {
+    let pre: u8 = kani::any();
+    let a = A::any();
+    let b = B::any();
+    let t: u8 = kani::any();
+    let mut e = Encoder::new();
+    put_prefix::<K>(&mut e, pre);
+    a.put(&mut e);
+    b.put(&mut e);
+    if T {
+        e.u8(t).unwrap();
+    }
+    e.encode(Filler::FillerEnd).unwrap();
+    let buf = e.buffer;
+    let mut d = Decoder::new(&buf);
+    get_prefix::<K>(&mut d, pre);
+    a.check(&mut d);
+    b.check(&mut d);
+    if T {
+        assert!(d.u8().unwrap() == t, "trailing byte after a sequence decodes");
+    }
+    let rest = 8 - d.used_bits as usize;
+    assert!(d.bits8(rest).unwrap() == 1, "a sequence ends with the filler pattern");
+    assert!(d.pos == buf.len() && d.used_bits == 0, "decoding a sequence consumes the whole buffer");
+    core::mem::forget(buf);
+}
+/// shapes without a filler loop: (bool,bool) (bits(n<=2),bool) (bool,word<2^14) (list of one u8,bool)
+fn seqa<const K: usize, const T: bool>() {
+    seq2::<K, T, OBool, OBool>();
+    seq2::<K, T, OBits12, OBool>();
+    seq2::<K, T, OBool, OWord14>();
+    seq2::<K, T, OList1, OBool>();
+    kani::cover!(true, "all shapes executed");
+}
+/// (bool, bytes of length 0) / (bool, bytes of length 1): Decoder::bytes starts with the filler loop
+fn seqb0<const K: usize, const T: bool>() {
+    seq2::<K, T, OBool, OBytes0>();
+    kani::cover!(true, "shape executed");
+}
+fn seqb1<const K: usize, const T: bool>() {
+    seq2::<K, T, OBool, OBytes1>();
+    kani::cover!(true, "shape executed");
+}
+/// (bool, filler directly) decoded with Decoder::filler itself
+fn seqf<const K: usize>() {
+    let pre: u8 = kani::any();
+    let x: bool = kani::any();
+    let mut e = Encoder::new();
+    put_prefix::<K>(&mut e, pre);
+    e.bool(x);
+    e.encode(Filler::FillerEnd).unwrap();
+    let buf = e.buffer;
+    let mut d = Decoder::new(&buf);
+    get_prefix::<K>(&mut d, pre);
+    assert!(d.bool().unwrap() == x, "bool before the filler decodes");
+    let r = d.filler();
+    assert!(r.is_ok(), "filler directly after a bool decodes");
+    assert!(d.pos == buf.len() && d.used_bits == 0, "decoding consumes the whole buffer");
+    kani::cover!(buf.len() == if K == 7 { 2 } else { 1 }, "the filler is a byte of its own iff the bool completed a byte");
+    core::mem::forget(r);
+    core::mem::forget(buf);
+}
+macro_rules! seq {
+    ($name:ident, $body:ident, $k:expr, $t:expr, $unw:expr) => {
+        #[kani::proof]
+        #[kani::unwind($unw)]
+        #[kani::stub(std::fmt::format, crate::stubs::fmt_format_stub)]
+        fn $name() {
+            $body::<$k, $t>();
+        }
+    };
+    ($name:ident, $body:ident, $k:expr, $unw:expr) => {
+        #[kani::proof]
+        #[kani::unwind($unw)]
+        #[kani::stub(std::fmt::format, crate::stubs::fmt_format_stub)]
+        fn $name() {
+            $body::<$k>();
+        }
+    };
+}
+// bound: after K symbolic bools the two-value sequences (bool,bool) (bits(n<=2),bool) (bool,word<2^14) (list of one u8,bool), each followed by the filler directly (f) or by a symbolic u8 and the filler (u); all values symbolic (unwind 3)
+seq!(c01_q_seqa_a5_f, seqa, 5, false, 3);
+seq!(c01_q_seqa_a6_f, seqa, 6, false, 3);
+seq!(c01_q_seqa_a7_f, seqa, 7, false, 3);
+seq!(c01_t_seqa_a7_u, seqa, 7, true, 3);
+seq!(c01_t_seqa_a0_f, seqa, 0, false, 3);
+seq!(c01_t_seqa_a1_f, seqa, 1, false, 3);
+seq!(c01_t_seqa_a2_f, seqa, 2, false, 3);
+seq!(c01_t_seqa_a3_f, seqa, 3, false, 3);
+seq!(c01_t_seqa_a4_f, seqa, 4, false, 3);
+seq!(c01_t_seqa_a5_u, seqa, 5, true, 3);
+seq!(c01_t_seqa_a6_u, seqa, 6, true, 3);
+// bound: after K symbolic bools the sequences (bool, bytes of length 0) and (bool, one symbolic byte), followed by the filler directly (f) or by a symbolic u8 and the filler (u); unwind = the filler loop in front of the block (K=7: the bool completes the byte, 8 reads)
+seq!(c01_q_seqb1_a7_f, seqb1, 7, false, 9);
+seq!(c01_t_seqb0_a7_f, seqb0, 7, false, 9);
+seq!(c01_t_seqb1_a5_f, seqb1, 5, false, 4);
+seq!(c01_t_seqb0_a6_f, seqb0, 6, false, 4);
+seq!(c01_t_seqb1_a7_u, seqb1, 7, true, 9);
+seq!(c01_t_seqb0_a0_f, seqb0, 0, false, 8);
+seq!(c01_t_seqb1_a3_u, seqb1, 3, true, 5);
+// bound: after K symbolic bools a symbolic bool and then the filler directly, decoded with Decoder::filler (unwind 9), every K in 0..=7
+seq!(c01_q_seqf_a5, seqf, 5, 9);
+seq!(c01_q_seqf_a6, seqf, 6, 9);
+seq!(c01_q_seqf_a7, seqf, 7, 9);
+seq!(c01_t_seqf_a0, seqf, 0, 9);
+seq!(c01_t_seqf_a1, seqf, 1, 9);
+seq!(c01_t_seqf_a2, seqf, 2, 9);
+seq!(c01_t_seqf_a3, seqf, 3, 9);
+seq!(c01_t_seqf_a4, seqf, 4, 9);
 
 /// vacuity twin: must come back FAILED
 #[kani::proof]
